@@ -34,17 +34,17 @@ func baselineSet() map[string]bool {
 	return out
 }
 
-// baselineParams: function name -> parameter names on the reference tree.
-func baselineParams() map[string][]string {
-	out := map[string][]string{}
+// baselineParams: function name -> (parameter name, parameter type) pairs on the reference tree.
+func baselineParams() map[string][][2]string {
+	out := map[string][][2]string{}
 	for _, l := range strings.Split(baselineFuncs, "\n") {
 		if strings.TrimSpace(l) == "" || strings.HasPrefix(l, "#") {
 			continue
 		}
-		parts := strings.SplitN(l, "\t", 2)
-		var ps []string
-		if len(parts) == 2 && parts[1] != "" {
-			ps = strings.Split(strings.TrimSpace(parts[1]), ",")
+		parts := strings.Split(l, "\t")
+		var ps [][2]string
+		for i := 1; i+1 < len(parts); i += 2 {
+			ps = append(ps, [2]string{parts[i], parts[i+1]})
 		}
 		out[strings.TrimSpace(parts[0])] = ps
 	}
@@ -52,7 +52,8 @@ func baselineParams() map[string][]string {
 }
 
 // CanonicalParamNames maps every parameter of a baseline function to the name it had on the reference tree (same
-// position), so that renaming a parameter does not change the provenance strings the rules compare.
+// position and same type), so that renaming a parameter does not change the provenance strings the rules compare. A
+// function whose parameter list changed in length or types keeps its own names.
 func (p *Prog) CanonicalParamNames(all map[*ssa.Function]bool) map[*ssa.Parameter]string {
 	base := baselineParams()
 	out := map[*ssa.Parameter]string{}
@@ -64,9 +65,18 @@ func (p *Prog) CanonicalParamNames(all map[*ssa.Function]bool) map[*ssa.Paramete
 		if !ok || len(ps) != len(f.Params) {
 			continue
 		}
+		same := true
 		for i, prm := range f.Params {
-			if ps[i] != "" && ps[i] != prm.Name() {
-				out[prm] = ps[i]
+			if ps[i][1] != prm.Type().String() {
+				same = false
+			}
+		}
+		if !same {
+			continue
+		}
+		for i, prm := range f.Params {
+			if ps[i][0] != "" && ps[i][0] != prm.Name() {
+				out[prm] = ps[i][0]
 			}
 		}
 	}
